@@ -1,0 +1,36 @@
+//go:build verif
+
+package pool
+
+import "sync/atomic"
+
+// Access notifications for the verification harness (/verif). Compiled only with
+// -tags verif. Every exported accessor of Message (getters and setters; not Reset,
+// which the pool itself calls while it recycles a message, and not Hijack/IsHijacked,
+// whose flag deliberately outlives a release) reports the message it is called on.
+// The harness uses it to see accesses to a message that has been released.
+
+// VerifUseTracker receives the access notifications.
+type VerifUseTracker interface {
+	// Used is called at the start of every hooked accessor of m.
+	Used(m *Message)
+}
+
+type verifUseHolder struct{ t VerifUseTracker }
+
+var verifUseTracker atomic.Pointer[verifUseHolder]
+
+// VerifSetUseTracker installs (or, with nil, removes) the access tracker.
+func VerifSetUseTracker(t VerifUseTracker) {
+	if t == nil {
+		verifUseTracker.Store(nil)
+		return
+	}
+	verifUseTracker.Store(&verifUseHolder{t: t})
+}
+
+func verifOnUse(m *Message) {
+	if h := verifUseTracker.Load(); h != nil {
+		h.t.Used(m)
+	}
+}
